@@ -113,6 +113,19 @@ Theorem C16_generated_statement_with_declarations_linear : forall (P: Type) rp (
 Proof. exact statements_with_decls_linear. Qed.
 Print Assumptions C16_generated_statement_with_declarations_linear.
 
+(* ... and the WHOLE parse of a program (function definitions `T f ( ) { ... }` over that language, proofs/FuncTrip.v): parse_tokens,
+   from the initial state of parse() to the end of the input, consumes all n tokens and calls next() at most 3 n times *)
+From PV Require FuncTrip.
+Theorem C16_generated_program_linear : forall (P: Type) rp (p: list FuncTrip.fdef), Forall FuncTrip.fwf p ->
+  forall items le eof file, Spell P le (FuncTrip.prog_toks rp p) -> UpR P [[]] items le -> List.length items = List.length le ->
+  exists f0 N s', (forall fu, (f0 <= fu)%nat -> parse_tokens P fu (init_pstate P items eof file) = Ok (N, s')) /\
+    idx P s' = List.length le /\ (N.to_nat (ticks P s') <= 3 * List.length le)%nat.
+Proof.
+  intros P rp p Hp items le eof file HS HU Hl. destruct (FuncTrip.parse_of_generated_program P rp p Hp items le eof file HS HU Hl) as [f0 [N [s' [H [_ [Hi Ht]]]]]].
+  exists f0, N, s'. split; [exact H|split; [exact Hi|exact Ht]].
+Qed.
+Print Assumptions C16_generated_program_linear.
+
 (* the hypotheses of the two theorems are satisfiable and the accounting is the model's own: on `( a + b ) * c ;`
    p_expression consumes the 7 tokens with 9 calls of next() (the parenthesis is read three times) *)
 Theorem C16_linear_example :
